@@ -62,16 +62,29 @@ ZeroImpVerdict(r) ==
 Proportional(w, q) ==
   /\ w.pivot # 0 /\ q[w.pivot] # 0
   /\ \A i \in 1..10 : w.ratios[i][2] # 0 /\ w.ratios[i][1] * q[w.pivot] = w.ratios[i][2] * q[i]
+(* coefficients (times 4) of the quadratic function whose value at doubled point P is F4[P] = 4 f(P/2), *)
+(* by interpolation on the unisolvent set {0, +-e_i, e_i + e_j}                                       *)
+QuadOfValues(F(_)) ==
+  LET k == F(<<0,0,0>>)
+      a == (F(<<2,0,0>>) + F(<<-2,0,0>>)) \div 2 - k
+      b == (F(<<0,2,0>>) + F(<<0,-2,0>>)) \div 2 - k
+      c == (F(<<0,0,2>>) + F(<<0,0,-2>>)) \div 2 - k
+      g == (F(<<2,0,0>>) - F(<<-2,0,0>>)) \div 2
+      h == (F(<<0,2,0>>) - F(<<0,-2,0>>)) \div 2
+      j == (F(<<0,0,2>>) - F(<<0,0,-2>>)) \div 2
+  IN << a, b, c, F(<<2,2,0>>) - a - b - g - h - k, F(<<0,2,2>>) - b - c - h - j - k,
+        F(<<2,0,2>>) - a - c - g - j - k, g, h, j, k >>
+(* the polynomial of deck surface s in the main frame (its own TR number applied) *)
+MainQuad(D, s) ==
+  LET q == CardQ(s)
+      F(P) == Q4(q, IF s.tr = 0 THEN P ELSE ToAux(TrOf(D, s.tr), P))
+  IN QuadOfValues(F)
 WitnessVerdict(r) ==
   LET D == r.deck  T == r.file
-      cands == { s \in SeqSet(D.surfs) : ~IsTorus(s) /\ ~IsBody(s) /\ s.tr = 0 }
+      cands == { s \in SeqSet(D.surfs) : ~IsTorus(s) /\ ~IsBody(s) }
       witOf(n) == { T.wit[i] : i \in { j \in 1..Len(T.wit) : T.wit[j].id = n } }
-      bad == { s \in cands : \E w \in witOf(s.n) : ~Proportional(w, CardQ(s)) }
+      bad == { s \in cands : \E w \in witOf(s.n) : ~Proportional(w, MainQuad(D, s)) }
   IN { <<"locus", s.n>> : s \in bad }
-NWitnessed(r) ==
-  LET D == r.deck  T == r.file
-  IN Cardinality({ s \in SeqSet(D.surfs) : ~IsTorus(s) /\ ~IsBody(s) /\ s.tr = 0
-                     /\ \E j \in 1..Len(T.wit) : T.wit[j].id = s.n })
 
 Clauses == IF "CLAUSES" \in DOMAIN IOEnv THEN IOEnv.CLAUSES ELSE "owner,valid"
 HasClause(c) == \E i \in 1..(Len(Clauses) - Len(c) + 1) : SubSeq(Clauses, i, i + Len(c) - 1) = c
